@@ -50,6 +50,53 @@ def pull_op(rng, ln, allow_buf=True, allow_comp=True):
     return [{"op": "next"}]
 
 
+CLONE_KINDS = ("cloned_slice", "cloned_iter")
+
+
+def decorate(sc):
+    """chooses how the clients take the items out of the chunk iterators (next / nth / fold / find, and how a
+    partly consumed chunk is discarded: dropped, nth(MAX), count(), last()); a separate random stream per scenario,
+    so that the programs themselves stay what they were"""
+    r = random.Random(sc["id"] * 2654435761 % (1 << 31))
+    fin = 0 if sc["kind"] in CLONE_KINDS else 4       # discarding through the iterator clones the rest of a cloned() chunk
+    for prog in [sc.get("pre", [])] + sc.get("threads", []) + [sc.get("post", [])]:
+        for st in prog:
+            if st["op"] in ("chunk", "bnext") and r.random() < 0.45:
+                st["via"] = r.randrange(0, 4) | (fin if r.random() < 0.7 else 0)
+    return sc
+
+
+def partial(kind, sid0):
+    """every way of consuming a chunk partly and pulling again (one-shot and buffered), small sizes, sequential"""
+    out = []
+    j = 0
+    for ln in (4, 5, 6):
+        for n in (2, 3):
+            for k1 in range(0, n + 1):
+                for k2 in (None, 1):
+                    for buffered in (True, False):
+                        via = (j % 4) | (0 if kind in CLONE_KINDS or j % 8 < 4 else 4)
+                        j += 1
+                        a = {"op": "bnext" if buffered else "chunk", "take": k1, "via": via}
+                        b = {"op": "bnext" if buffered else "chunk", "via": (via + 1) % 8 if kind not in CLONE_KINDS else (via + 1) % 4}
+                        if k2 is not None:
+                            b["take"] = k2
+                        c = {"op": "bnext" if buffered else "chunk"}
+                        if not buffered:
+                            a["n"], b["n"], c["n"] = n, n, n + 1
+                        pre = ([{"op": "bnew", "n": n}] if buffered else []) + [a, b, c]
+                        if buffered and j % 3 == 0:
+                            pre.append({"op": "bdrop"})
+                        sc = {"id": sid0 + len(out), "kind": kind, "len": ln, "threads": [], "pre": pre,
+                              "post": [{"op": "len"}, {"op": "intoseq"} if j % 2 else {"op": "drop"}]}
+                        if kind in ("range", "rangeref"):
+                            sc["start"] = (0, 5)[j % 2]
+                        if kind in TICKET_KINDS:
+                            sc["hint"] = ("exact", "inexact", "unbounded")[j % 3]
+                        out.append(sc)
+    return out
+
+
 def query_op(rng):
     return [{"op": rng.choice(["len", "hasmore"])}]
 
@@ -115,7 +162,7 @@ def concurrent(rng, sid, kind, ln=None, nthreads=None, nops=None, p_skip=0.0, hi
         # a thread clones the shared iterator while the others pull, and drains its clone
         t = rng.randrange(nthreads)
         sc["threads"][t].insert(rng.randrange(len(sc["threads"][t]) + 1), {"op": "cloneuse"})
-    return sc
+    return decorate(sc)
 
 
 def skip_storm(rng, sid, kind, ln=None):
@@ -146,7 +193,7 @@ def sequential(rng, sid, kind, ln=None, nops=None, p_skip=0.1):
         sc["start"] = rng.choice([0, 0, 1, 5, 17])
     if kind in TICKET_KINDS:
         sc["hint"] = rng.choice(["exact", "exact", "inexact", "unbounded"])
-    return sc
+    return decorate(sc)
 
 
 def composite(rng, sid, kind, ln=None):
@@ -169,7 +216,7 @@ def composite(rng, sid, kind, ln=None):
         sc["start"] = rng.choice([0, 3])
     if kind in TICKET_KINDS:
         sc["hint"] = rng.choice(["exact", "inexact", "unbounded"])
-    return sc
+    return decorate(sc)
 
 
 def multi(rng, sid, kind, ln=None):
@@ -229,4 +276,4 @@ def tri(rng, sid, kind, ln=None):
         sc["start"] = rng.choice([0, 3])
     if kind in TICKET_KINDS:
         sc["hint"] = rng.choice(["exact", "exact", "inexact"])
-    return sc
+    return decorate(sc)
